@@ -9,6 +9,9 @@
 (* verdicts are total (failing clauses are printed, the record consumed).  *)
 (***************************************************************************)
 EXTENDS ContractUrl, ImplUrl, Json, IOUtils, TLC, TLCExt
+WriterModel == INSTANCE Writer WITH BUF <- 8192, MaxOut <- 0, MaxRuns <- 0, pc <- "idle", buf <- "static", size <- 8192,
+                 pos <- 0, todo <- 0, liveHeap <- 0, freedTwice <- FALSE, freedStatic <- FALSE, faultUsed <- FALSE,
+                 outcome <- "none", runs <- 0, written <- 0
 CONSTANT Prop
 
 Recs == JsonDeserialize(IOEnv.TRACE_FILE)
@@ -165,8 +168,40 @@ C16_Checks(r) ==
   \cup (IF r.act = "with_host_self" /\ Has_(r, "self") /\ ~(OutOk(r) = FALSE /\ r.out.exc = "n/a")
         THEN {<<"C16.selfhost." \o r.args.which, TRUE, C16_SelfHost(r.self, r.out)>>} ELSE {})
 
+\* ---------------------------------------------------------------- C18
+\* judged: absolute URLs built from decoded components (act = build, not encoded, with a scheme and a host)
+C18_Checks(r) ==
+  IF r.act = "build" /\ OutOk(r) /\ Has_(r, "human") /\ "encoded" \notin DOMAIN r.args.kw
+     /\ Scheme5(r.out.ok) # <<>> /\ Netloc5(r.out.ok) # <<>> THEN
+     {<<"C18.roundtrip", Ok(r.out.ok.human_repr), C18_RoundTrip(r.out.ok, r.human)>>,
+      <<"C18.readable", TRUE, C18_Readable(r.args.kw, r.out.ok, Range(r.printable))>>,
+      <<"C18.only_needed_escapes", TRUE, C18_OnlyNeededEscapes(r.out.ok, Range(r.printable))>>}
+  ELSE {}
+
+\* ---------------------------------------------------------------- C19
+\* alloc_sweep: one compiled-quoter call repeated with the k-th allocation failing, k = 0, 1, ... until none fires
+C19_SweepChecks(r) ==
+  LET n == Len(r.outcomes) IN
+  {<<"C19.alloc.no_crash", TRUE, r.exit = 0 /\ n >= 1>>,
+   <<"C19.alloc.memoryerror_then_result", TRUE,
+       r.exit = 0 => (/\ \A i \in 1..(n - 1) : r.outcomes[i] = "MemoryError"
+                      /\ r.outcomes[n] = "result" /\ r.result_correct)>>,
+   <<"C19.alloc.later_calls_correct", TRUE, r.exit = 0 => \A i \in 1..n : r.next_correct[i]>>,
+   \* the sweep passed at least the allocation points the Writer model has for this output length
+   <<"C19.alloc.fault_points", TRUE, r.exit = 0 => n - 1 >= WriterModel!AllocPoints(r.outlen)>>}
+C19_Checks(r) ==
+  IF r.act = "alloc_sweep" THEN C19_SweepChecks(r)
+  ELSE IF r.act \in {"alt", "cmp", "cmp3"} THEN {}
+  ELSE {<<"C19.exception_class", ~OutOk(r), C19_OutcomeClass(r.out)>>}
+       \cup (IF OutOk(r) THEN {<<"C19.accessor_exception_class", TRUE, C19_AccessorsClass(r.out.ok)>>} ELSE {})
+       \cup (IF OutOk(r) /\ ~EncodedEntry(r) /\ r.act # "ctor" /\ "str" \in DOMAIN r.out.ok
+                /\ (Has_(r, "self") => ("str" \in DOMAIN r.self /\ Ok(r.self.str)))
+             THEN {<<"C19.str_total", TRUE, C19_StrTotal(r.out.ok)>>} ELSE {})
+
 Checks(r) ==
   CASE Prop = "C07" -> C07_Checks(r)
+    [] Prop = "C19" -> C19_Checks(r)
+    [] Prop = "C18" -> C18_Checks(r)
     [] Prop = "C16" -> C16_Checks(r)
     [] Prop = "C13" -> C13_Checks(r)
     [] Prop = "C12" -> C12_Checks(r)
@@ -235,10 +270,17 @@ Trig_WithSuffixRequotes(r) ==
        /\ QuoteC(PATH_QUOTER, stem) # stem                                         \* trigger: the raw stem is not quoting-stable
        /\ V(r.outs[1].ok.raw_name) = QuoteC(PATH_QUOTER, stem \o r.args.x)          \* observed = deviant prediction
 Attribution(r) ==
+  IF r.act = "alloc_sweep" THEN {} ELSE
   IF r.act = "alt" THEN (IF Trig_WithSuffixRequotes(r) THEN {"Dev_WithSuffixRequotesRawName"} ELSE {}) ELSE
   IF r.act \in {"cmp", "cmp3"} THEN (IF r.act = "cmp" /\ Trig_OrderingOnRawTuple(r) THEN {"Dev_OrderingOnRawTuple"} ELSE {}) ELSE
   (IF OutOk(r) THEN ObsAttribution(r.out.ok) ELSE {})
   \cup (IF Trig_JoinRootlessBase(r) THEN {"Dev_JoinRootlessBase"} ELSE {})
+  \* Dev_HumanReprNfkcUserinfo: user/password contain a character whose NFKC form has a delimiter; human_repr() shows it
+  \* unescaped and the constructor's NFKC screen then rejects the string
+  \cup (IF r.act = "build" /\ Has_(r, "human") /\ ~Ok(r.human) /\ IsValueError(r.human)
+           /\ (\/ ("user" \in DOMAIN r.args.kw /\ r.args.kw.user # None /\ HasAny(r.args.kw.user[1], NfkcDelims))
+               \/ ("password" \in DOMAIN r.args.kw /\ r.args.kw.password # None /\ HasAny(r.args.kw.password[1], NfkcDelims)))
+        THEN {"Dev_HumanReprNfkcUserinfo"} ELSE {})
   \* observation-based form of Dev_BracketedNonIPv6LosesBrackets: a stored host with ':' that is not an IPv6 address
   \cup (IF OutOk(r) /\ "raw_host" \in DOMAIN r.out.ok /\ Ok(r.out.ok.raw_host) /\ V(r.out.ok.raw_host) # None
            /\ Has(V(r.out.ok.raw_host)[1], COLON) /\ CanonIPv6Host(V(r.out.ok.raw_host)[1]) = <<>>
@@ -260,6 +302,7 @@ TNext ==
          cs == Checks(r)
          failing == {c[1] : c \in {x \in cs : ~x[3]}}
      IN /\ IF failing = {} THEN TRUE ELSE PrintT(<<"VERDICT", r.id, failing, Attribution(r)>>)
+        /\ IF failing # {} /\ Prop = "C19" /\ OutOk(r) THEN PrintT(<<"DIFF", r.id, C19_BadAccessors(r.out.ok)>>) ELSE TRUE
         /\ IF failing # {} /\ Prop = "C03" THEN PrintT(<<"DIFF", r.id, C03_DiffFields(r.out.ok, r.reparse)>>) ELSE TRUE
         /\ IF failing # {} /\ Prop = "C09"
            THEN PrintT(<<"DIFF", r.id, UNION {C09_TwinDiff(r.out.ok, r.twin[k]) : k \in DOMAIN r.twin}>>) ELSE TRUE
